@@ -21,6 +21,8 @@ import (
 	"github.com/Oneledger/protocol/action/transfer"
 	"github.com/Oneledger/protocol/data/balance"
 	"github.com/Oneledger/protocol/data/ethereum"
+	"github.com/Oneledger/protocol/data/keys"
+	"github.com/ethereum/go-ethereum/common"
 
 	"olverif/harness/rng"
 )
@@ -398,7 +400,11 @@ func RunLedger(opt LedgerOptions) (*Result, error) {
 				for _, t := range br.Txs {
 					codes = append(codes, t.Code)
 				}
-				wrapped := wrappedAllowance(prevDump, dump, b.Txs, codes)
+				var wits []keys.Address
+				for _, v := range g.ethWitnesses() {
+					wits = append(wits, v.Key.Addr)
+				}
+				wrapped := wrappedAllowance(prevDump, dump, b.Txs, codes, wits)
 				for curName, tot := range cur.Total {
 					before := prev.Total[curName]
 					if before == nil {
@@ -477,16 +483,54 @@ var supplyCounterOwner = AddrStr([]byte(ethSupplyAddr))
 // committed state plus the reports delivered with code 0 in this block, one per witness, each at
 // the witness's own index. Amounts are read with go-ethereum's transaction decoder and the ABI
 // layout, not with the repo's parsers.
-func wrappedAllowance(prev, cur map[string]string, txs [][]byte, codes []uint32) map[string]*big.Int {
+func wrappedAllowance(prev, cur map[string]string, txs [][]byte, codes []uint32, witnesses []keys.Address) map[string]*big.Int {
 	out := map[string]*big.Int{}
 	pv, err1 := decodeEthView(prev)
-	cv, err2 := decodeEthView(cur)
+	_, err2 := decodeEthView(cur)
 	if err1 != nil || err2 != nil {
 		return out
 	}
 	type tally struct {
 		t       *ethereum.Tracker
 		yes, no map[string]bool
+	}
+	created := map[string]*ethereum.Tracker{}
+	for i, tx := range txs {
+		if i >= len(codes) || codes[i] != 0 {
+			continue
+		}
+		st, ok := parseSigned(tx)
+		if !ok {
+			continue
+		}
+		var raw []byte
+		var typ ethereum.ProcessType
+		switch st.Type {
+		case action.ETH_LOCK:
+			m := &aeth.Lock{}
+			if m.Unmarshal(st.Data) == nil {
+				raw, typ = m.ETHTxn, ethereum.ProcessTypeLock
+			}
+		case action.ERC20_LOCK:
+			m := &aeth.ERC20Lock{}
+			if m.Unmarshal(st.Data) == nil {
+				raw, typ = m.ETHTxn, ethereum.ProcessTypeLockERC
+			}
+		case action.ETH_REDEEM:
+			m := &aeth.Redeem{}
+			if m.Unmarshal(st.Data) == nil {
+				raw, typ = m.ETHTxn, ethereum.ProcessTypeRedeem
+			}
+		case action.ERC20_REDEEM:
+			m := &aeth.ERC20Redeem{}
+			if m.Unmarshal(st.Data) == nil {
+				raw, typ = m.ETHTxn, ethereum.ProcessTypeRedeemERC
+			}
+		}
+		if raw != nil {
+			h := common.BytesToHash(raw)
+			created[new(big.Int).SetBytes(h[:]).String()] = &ethereum.Tracker{Type: typ, SignedETHTx: raw, Witnesses: witnesses}
+		}
 	}
 	tl := map[string]*tally{}
 	get := func(name string) *tally {
@@ -507,10 +551,10 @@ func wrappedAllowance(prev, cur map[string]string, txs [][]byte, codes []uint32)
 				}
 			}
 		} else {
-			// submitted in this block: the record of the new state names type, witnesses and external tx
-			for i := 0; i < 3 && t == nil; i++ {
-				t = cv.Store[i][name]
-			}
+			// submitted in this block (it may also be decided and cleaned up within it, and the cleaned
+			// record keeps neither witnesses nor the external transaction): type and external
+			// transaction come from the accepted submission, the witnesses are those of the chain
+			t = created[name]
 		}
 		if t == nil {
 			return nil
